@@ -429,7 +429,8 @@ def stream_compounds(run: Run, c: Ctx, batch: Batch, n):
             batch.ask("sld d %s w %s %s" % (f2h(dens), f2h(w), toks), lambda rep, res=res, sc=sc: model_sld(rep, res, sc, "xray_sld(wavelength)", 1e-8))
         elif call in ("sld_vec", "sld_list"):
             es = [e] + [gen_energy(rng, c, struct)[0] for _ in range(rng.randint(1, 3))]
-            arg = np.array(es) if call == "sld_vec" else list(es)
+            from ..neutron_common import reused_array, reused_list
+            arg = reused_array(es) if call == "sld_vec" else reused_list(es)   # buffers reused across calls
             res = py(lambda: xsf.xray_sld(f, density=dens, energy=arg))
             if res[0] == "ok" and np.ndim(res[1][0]) == 0:
                 # an all-zero composition (mass == 0) returns the scalars (0, 0) whatever the shape asked
